@@ -11,6 +11,11 @@ import (
 	"github.com/filecoin-project/go-f3/verifh/vkit"
 )
 
+// Debugging aids, not part of the check (the driver runs ^TestCheck$ and ^TestRace$ only):
+//
+//	C18_LO=14 C18_HI=15 C18_VERBOSE=all go test -v -tags verif -overlay /verif/.overlay.json -run TestDebugSeq ./c18
+//
+// prints the full operation log of deterministic sequence 14 (VERIF_SEED selects the run seed).
 func TestDebugSeq(t *testing.T) {
 	run := vkit.New("C18", "debug", "exploration")
 	lo, _ := strconv.Atoi(os.Getenv("C18_LO"))
@@ -19,7 +24,11 @@ func TestDebugSeq(t *testing.T) {
 		res := runSequence(i, run.SubSeed(int64(i)))
 		if res.abort != "" || os.Getenv("C18_VERBOSE") != "" {
 			fmt.Printf("case %d params=%+v abort=%q ops=%d viol=%d\n", i, res.params, res.abort, len(res.ops), len(res.viol))
-			for _, o := range tail(res.ops, 12) {
+			n := 12
+			if os.Getenv("C18_VERBOSE") == "all" {
+				n = 1 << 30
+			}
+			for _, o := range tail(res.ops, n) {
 				fmt.Println("   ", o)
 			}
 			for _, v := range res.viol {
